@@ -66,27 +66,31 @@ Lemma clean_mismatch_old : lang_result w_f13 = Some (true, [[49]; [58; 61]])
   /\ syn_result w_f13 = Some (true, [[49]; [58; 61]]).
 Proof. vm_compute. repeat split. Qed.
 
-(* the three ways in which today's lexers split a source differently although it is clean for both *)
+(* the one way left in which today's lexers split a source differently although it is clean for both, and
+   the repaired ones *)
 Definition w_colon : list N := [49; 54; 58; 70; 70; 58].                          (* 16:FF: *)
 Definition w_merge : list N := [49; 46; 53; 120; 34; 48; 34].                     (* 1.5x, quote, 0, quote *)
 Definition w_psl : list N := ASSUME_G ++ [39; 97; 39].                            (* assume_guarantee'a' *)
 Definition w_crlf : list N := [39; 13; 10; 39].                                   (* ' CR LF ' *)
 Definition mismatch (s : list N) : Prop :=
   in_quantifier s = true /\ lexemes_lang s <> lexemes_syn s.
-Lemma mismatch_colon : mismatch w_colon
-  /\ lexemes_lang w_colon = Some [[49; 54]; [58]; [70; 70]; [58]] /\ lexemes_syn w_colon = Some [w_colon].
-Proof. unfold mismatch. vm_compute. repeat split; discriminate. Qed.
+(* F40 (repaired by bba3236): `16:FF:` is one based literal for both lexers now *)
+Lemma colon_based_literal_agree : lang_result w_colon = Some (true, [w_colon]) /\ syn_result w_colon = Some (true, [w_colon]).
+Proof. vm_compute. repeat split. Qed.
 (* F41, before commit f2c0e80: the real literal was merged into a bit string literal; repaired: agreement *)
 Lemma merge_any_literal_old : lang_result w_merge = Some (true, [[49; 46; 53]; [120; 34; 48; 34]])
   /\ syn_result_merge_old w_merge = Some (true, [w_merge])
   /\ syn_result w_merge = Some (true, [[49; 46; 53]; [120; 34; 48; 34]]).
 Proof. vm_compute. repeat split. Qed.
-Lemma mismatch_psl : mismatch w_psl
-  /\ lexemes_lang w_psl = Some [ASSUME_G; [39; 97; 39]] /\ lexemes_syn w_psl = Some [ASSUME_G; [39]; [97]; [39]].
-Proof. unfold mismatch. vm_compute. repeat split; discriminate. Qed.
+(* F42, before commit 9360ea7: assume_guarantee was an identifier for vhdl_syntax, so the tick after it was an
+   attribute tick; with the repaired keyword table both lexers read a character literal *)
+Lemma psl_reserved_word_old : lang_result w_psl = Some (true, [ASSUME_G; [39; 97; 39]])
+  /\ syn_result_kw_old w_psl = Some (true, [ASSUME_G; [39]; [97]; [39]])
+  /\ syn_result w_psl = Some (true, [ASSUME_G; [39; 97; 39]]).
+Proof. vm_compute. repeat split. Qed.
 Lemma mismatch_crlf : mismatch w_crlf
   /\ lexemes_lang w_crlf = Some [[39; 10; 39]] /\ lexemes_syn w_crlf = Some [[39]; [39]].
 Proof. unfold mismatch. vm_compute. repeat split; discriminate. Qed.
-Lemma witnesses_known : known_difference w_colon = true
-  /\ known_difference w_psl = true /\ known_difference w_crlf = true.
+Lemma witnesses_known : known_difference w_crlf = true /\ known_difference w_colon = false
+  /\ known_difference w_merge = false /\ known_difference w_psl = false.
 Proof. vm_compute. repeat split. Qed.
